@@ -113,6 +113,18 @@ CLAIMED = {
              "without hour (known finding F9, proved counter-witness).",
         design="DESIGN §8 C20",
         technique="Lean 4 proof (loop specification + periodicity by linear arithmetic) + model/implementation correspondence"),
+    "C16": dict(
+        text="Theorems over an abstract heap and an effect IR (new / mov / load / write / call / ret, flow-insensitive, any "
+             "call depth) regenerated from the AST of data.py for every method of TimePoint, Duration, TimeZone and "
+             "TimeRecurrence: if every method body passes the decidable local check okMethod against its callees' summaries "
+             "then a public call writes no address that existed before it (C16_sem_sound, C16_public), hence after any "
+             "history of public operations every earlier value is unchanged (C16_history); C16_gen_ok decides by kernel "
+             "evaluation that the regenerated table passes - the obligation that breaks when a method writes self, stops "
+             "copying, or mutates something it did not allocate. The Python->IR reading is validated dynamically on every "
+             "run by a __setattr__ monitor and by histories with full snapshots re-inspected after every step.",
+        design="DESIGN §8 C16",
+        technique="Lean 4 proof (soundness of an effect discipline by induction on call depth and on histories) over an IR "
+                  "regenerated from the source + monitored histories"),
     "C03": dict(
         text="Theorems over the Lean model: the six conversions are total on valid dates, produce valid dates and "
              "preserve the Spec day number (so all round trips are identities), for every year in Int and all four "
